@@ -172,7 +172,7 @@ impl<'a> G<'a> {
     let mut cx = cx0.clone();
     cx.depth += 1;
     let deep = cx.depth > 4;
-    let r = self.rng.below(if deep { 12 } else { 34 });
+    let r = self.rng.below(if deep { 12 } else { 36 });
     match r {
       0..=3 => format!("{};", self.expr(&cx)),
       4 => ";".into(),
@@ -410,6 +410,18 @@ impl<'a> G<'a> {
         let fcx = Cx { in_fn: true, in_loop: false, in_switch: false, labels: vec![], loop_labels: vec![], depth: cx.depth };
         let g = self.block_body(&fcx, 3);
         format!("const {} = {{ get q() {{ {}}}, set q(v) {{ f(v); }} }};", self.id("o"), g)
+      }
+      34 | 35 => {
+        // a property descriptor: the getter among other members (generator methods, data members, a setter), in any order
+        self.feats.push("getter-descriptor");
+        let fcx = Cx { in_fn: true, in_loop: false, in_switch: false, labels: vec![], loop_labels: vec![], depth: cx.depth };
+        let g = self.block_body(&fcx, 3);
+        let others = ["*values() {}", "enumerable: true", "set(v) { f(v); }", "async *ag() {}", "configurable: false", "*[Symbol.iterator]() {}"];
+        let getter = if self.rng.chance(1, 3) { format!("get: function () {{ {}}}", g) } else { format!("get() {{ {}}}", g) };
+        let mut members: Vec<String> = (0..self.rng.below(3)).map(|_| others[self.rng.below(others.len())].to_string()).collect();
+        let at = self.rng.below(members.len() + 1);
+        members.insert(at, getter);
+        format!("Object.defineProperty({}, \"k\", {{ {} }});", self.id("o"), members.join(", "))
       }
       32 => {
         self.feats.push("arrow-stmt");
